@@ -20,6 +20,7 @@ import (
 	"strconv"
 	"strings"
 	"sync"
+	"syscall"
 	"time"
 
 	"github.com/IrineSistiana/mosproxy/verifsim/plan"
@@ -139,7 +140,7 @@ var (
 	binPath   string
 	raceBin   string
 	scratch   string
-	childWall = 120 * time.Second
+	childWall = 60 * time.Second
 )
 
 func childEnv(extra ...string) []string {
@@ -170,7 +171,7 @@ func runChild(env []string, outFile string) *result {
 	case err = <-done:
 	case <-time.After(childWall):
 		timedOut = true
-		cmd.Process.Signal(os.Interrupt)
+		cmd.Process.Signal(syscall.SIGQUIT)
 		time.Sleep(200 * time.Millisecond)
 		cmd.Process.Kill()
 		err = <-done
